@@ -1,7 +1,7 @@
 """C02 — scanner yields exactly the positions scoring at or above the threshold."""
 from lm import expr as X, guards as G
 from lm.match import norm, m
-from . import scanner as S
+from . import scanner as S, common
 
 LEVEL_NOTE = ('decides (part): no unwrap of an empty block maximum; candidate bounded by the number of valid positions before rescoring; '
               'position formula; inclusive comparisons; block partition; each hit pushed once and only drained by pop; pre-filter compares '
@@ -29,7 +29,7 @@ def prefilter_conservative(db, ctx):
             ctx.floors['R2.7-' + k] = ctx.floors.pop(k)
 
 
-def run(db, ctx):
+def _run(db, ctx):
     ctx.rule('R2.1', 'the block maximum (None on an empty block) is never unwrapped unguarded')
     ctx.rule('R2.2', 'a candidate position is compared with the number of valid positions before it is rescored / reported')
     ctx.rule('R2.3', 'position = col*(rows-wrap) + block start + row')
@@ -84,3 +84,12 @@ def run(db, ctx):
     else:
         ctx.fail('R2.6', f, 'hit buffer discipline', f'loop-guard-on-empty={ok6}, consumers of self.hits={[f.callee_short(p[1]) for p in pops]}')
     prefilter_conservative(db, ctx)
+
+
+def run(db, ctx):
+    _run(db, ctx)
+    # the scanner scores one block of rows per iteration into a reused buffer, including a possibly empty trailing block that starts in the
+    # look-ahead rows: every score wrapper must resize (clear) the output on every path, or stale 8-bit scores of the previous block are re-read
+    from . import C01
+    common.shared_rule(db, ctx, C01.r13, 'R2.8', 'every score_rows_into wrapper the scanner can dispatch to resizes the output buffer on every path '
+                       '(to (rows.len(), L + 1 - M), or to (0, 0) when there is nothing to score) — shared with R1.3', ['R1.3'])
